@@ -42,6 +42,8 @@ func obsTags(o TextObs, texts []c17.PkgText) []string {
 			tags = append(tags, "C16-F3:role-outside-workspace-panic") // fixed 7ddd85b13: a regression
 		case o.Stage == "panic" && strings.Contains(o.Err, "nil pointer dereference") && hasViewOfJob(texts):
 			tags = append(tags, "C16-F4:view-result-of-job-nil-dereference") // fixed a6c74ddce: a regression
+		case o.Stage == "died" && strings.Contains(o.Err, "stack") && strings.Contains(o.Err, "parser.lookupField") && hasFieldSetCycle(texts):
+			tags = append(tags, "C16-F9:field-set-cycle-stack-overflow-in-field-lookup")
 		case o.Stage == "died" && strings.Contains(o.Err, "stack") && hasFieldSetCycle(texts):
 			tags = append(tags, "C16-F5:field-set-cycle-stack-overflow") // fixed f76fc3ec8: a regression
 		default:
@@ -67,6 +69,9 @@ func obsTags(o TextObs, texts []c17.PkgText) []string {
 	if !o.Positioned {
 		if builderRefusal(o) {
 			tags = append(tags, "C16-F1b:builder-refusal-without-position")
+		} else if o.Stage == "build" && len(o.Unpositioned) == 1 && o.Unpositioned[0] == "incorrect nested table kind" {
+			// a field `name RecordTable` of another family than the containing table
+			tags = append(tags, "C16-F10:wrong-family-container-error-without-position")
 		} else {
 			tags = append(tags, "error-without-position")
 		}
@@ -140,6 +145,17 @@ func runText(texts []c17.PkgText, kind string, out *kit.Out, store bool) {
 }
 
 func genText(name string) []c17.PkgText {
+	if f := strings.Split(name, ":"); len(f) == 4 && f[0] == "container" { // container:<doc>:<rec>:<placement>
+		return containerProgram(f[1], f[2], f[3])
+	}
+	if strings.HasPrefix(name, "shape:") { // shape:<name of a crafted program>
+		for _, sh := range shapeCatalogue {
+			if sh[0] == name[6:] {
+				return withSys([]c17.PkgText{{Path: "github.com/verif/app1", Files: []string{sh[1]}}})
+			}
+		}
+		return nil
+	}
 	switch name {
 	case "big-table-65540-fields":
 		var fs []string
@@ -165,7 +181,7 @@ func runCaseFile(c caseFile, prefix string, out *kit.Out) error {
 		if t == nil {
 			return fmt.Errorf("unknown generator %q", c.Gen)
 		}
-		runText(t, prefix+c.Kind, out, false)
+		runText(t, prefix+c.Kind, out, !strings.HasPrefix(c.Gen, "big-")) // the big ones are not stored in the evidence
 	default:
 		return fmt.Errorf("empty case")
 	}
@@ -285,7 +301,7 @@ func Generate(seed uint64, n int, tier, corpusDir string, shard int, out *kit.Ou
 		progs[name] = p
 	}
 	var lastDump []c17.DItem // an accepted definition to take apart through the builder API
-	malformed, builderCases := shard*7, shard*11
+	malformed, builderCases, containers := shard*7, shard*11, shard*5
 	for i := 0; i < n; i++ {
 		cr := r.Fork()
 		switch i % 10 {
@@ -339,10 +355,14 @@ func Generate(seed uint64, n int, tier, corpusDir string, shard int, out *kit.Ou
 			texts, kinds := mutateText(cr, progs[name], donors)
 			runText(texts, "text:"+name+":"+kinds, out, true)
 		case 6: // statement-level mutation of a shipped program, or a crafted shape
-			if i%20 == 6 {
+			if i%30 == 6 {
 				name := progNames[cr.Intn(len(progNames))]
 				texts, kinds := mutateStatements(cr, progs[name])
 				runText(texts, "text:"+name+":"+kinds, out, true)
+			} else if i%30 == 16 {
+				containers++
+				texts, kind := containerShape(cr, containers)
+				runText(texts, "text:"+kind, out, true)
 			} else {
 				texts, kind := shapeText(cr, donors)
 				runText(texts, "text:"+kind, out, true)
